@@ -72,7 +72,8 @@ def replay(scripts, work, name, workers=16, shard=30000, race=False, watchdog=10
     out = os.path.join(work, name + ".trace")
     p = vlib.harness(["replay", "-in", scripts, "-out", out, "-workers", str(workers), "-shard", str(shard),
                       "-watchdog", str(watchdog)] + list(extra_args), race=race)
-    if p.returncode != 0:
+    raced = race and p.returncode == 66 and "DATA RACE" in p.stderr and p.stdout.strip().startswith("{")
+    if p.returncode != 0 and not raced:
         raise vlib.Inconclusive("harness replay failed: rc=%s\n%s\n%s" % (p.returncode, p.stdout[-2000:], p.stderr[-4000:]))
     info = json.loads(p.stdout.strip().splitlines()[-1])
     info["race_reports"] = p.stderr.count("WARNING: DATA RACE")
